@@ -61,7 +61,7 @@ def build_problem(case: dict) -> dict:
     rs = np.random.RandomState(case["data_seed"] % (2 ** 32))
     Bn, T, ns, nc = case["B"], case["T"], case["ns"], case["nc"]
     n = ns + nc
-    tv = case["sys"] in ("ltv", "ltvc")
+    tv = case["sys"] in ("ltv", "ltvc", "ltvp")
     L = T + case.get("extra", 0) if tv else 1
     A = np.zeros((Bn, L, ns, ns))
     Bm = np.zeros((Bn, L, ns, nc))
@@ -87,6 +87,11 @@ def build_problem(case: dict) -> dict:
                 break
         if case["sys"] == "ltv":       # LTV with constant c1 buffer
             c[b, :] = c[b, 0]
+        if case["sys"] == "echo":      # x+ = x
+            A[b, 0], Bm[b, 0], c[b, 0] = np.eye(ns), 0.0, 0.0
+        if case["sys"] == "view":      # x+ = u[:ns]
+            A[b, 0], c[b, 0] = 0.0, 0.0
+            Bm[b, 0] = np.eye(ns, nc)
     Q = np.zeros((Bn, T, n, n))
     p = np.zeros((Bn, T, n))
     mixed = bool(case.get("mixed"))
@@ -108,6 +113,12 @@ def build_problem(case: dict) -> dict:
                 Qt = M.T @ M * case["qscale"]
                 Qt[ns:, ns:] += _spd(rs, nc, min(condb, 1e3), case["qscale"])
                 Q[b, t] = (Qt + Qt.T) / 2
+            elif case.get("qstyle") == "nearsym":
+                # NEARLY symmetric (1e-6 relative asymmetry, far above round-off, below allclose's default rtol): outside
+                # "symmetric PD"; the model (which uses Q as given, like the code) is the reference for what the code does
+                Qs = _spd(rs, n, min(condb, 1e3), case["qscale"])
+                K = np.triu(rs.uniform(0.5, 1.0, (n, n)), 1)
+                Q[b, t] = Qs * (1 + 1e-6 * (K - K.T))          # ENTRYWISE relative asymmetry 1e-6: `allclose(Q, Q.mT)` is True
             elif case.get("qstyle") == "eye":        # EXACT TIE: all eigenvalues equal, Q_t = s I bit for bit
                 Q[b, t] = np.eye(n) * case["qscale"]
             elif case.get("qstyle") == "psd0":       # EXACT TIE: state block and cross terms exactly zero
@@ -144,7 +155,8 @@ def build_problem(case: dict) -> dict:
     dt = getattr(torch, case["dtype"])
     rnd = lambda a: torch.tensor(a, dtype=torch.float64).to(dt).to(torch.float64).numpy()
     Qr = rnd(Q)
-    Qr = (Qr + np.swapaxes(Qr, -1, -2)) / 2 if case["dtype"] == "float64" else Qr   # float32: rounding keeps symmetry
+    if case.get("qstyle") != "nearsym":
+        Qr = (Qr + np.swapaxes(Qr, -1, -2)) / 2 if case["dtype"] == "float64" else Qr   # float32: rounding keeps symmetry
     return {"A": rnd(A), "B": rnd(Bm), "c": rnd(c), "Q": Qr, "p": rnd(p), "x0": rnd(x0), "L": L, "tv": tv}
 
 
@@ -230,6 +242,12 @@ def make_system(case: dict, prob: dict):
     T_ = lambda a: torch.tensor(a, dtype=dt)
     Bn, ns, nc = case["B"], case["ns"], case["nc"]
     L = prob["L"]
+    if case["sys"] == "ltvp":
+        return user_classes()["PropLTV"](T_(prob["A"]), T_(prob["B"]), T_(prob["c"]), ns, nc)
+    if case["sys"] == "echo":
+        return user_classes()["EchoSys"]()
+    if case["sys"] == "view":
+        return user_classes()["ViewSys"](ns)
     if prob["tv"]:
         A, Bm = T_(prob["A"]), T_(prob["B"])
         C = torch.eye(ns, dtype=dt).repeat(Bn, L, 1, 1)
@@ -454,7 +472,7 @@ def arg_flags(case: dict):
     """how the user spells the arguments: Q once / per step, p once / per step, c1 given or None"""
     qonce = 1 if case["qshape"] in ("q3", "q3p2") else 0
     ponce = 1 if case["qshape"] in ("p2", "q3p2") else 0
-    hasc = 0 if (case["c1"] == "none" and case["sys"] != "ltvc") else 1
+    hasc = 0 if (case["c1"] == "none" and case["sys"] not in ("ltvc", "ltvp")) else 1
     return qonce, ponce, hasc
 
 
@@ -586,6 +604,10 @@ def parse_mpc_reply(rep: str, ns: int, nc: int, T: int):
 def refresh_from_system(case: dict, prob: dict, system) -> dict:
     """re-read A, B, c1 from the system's buffers (after the caller updated its tensors in place)"""
     bufs = dict(system.named_buffers())
+    if case["sys"] == "ltvp":
+        new = dict(prob)
+        new["A"], new["B"], new["c"] = (bufs[k].detach().double().numpy().copy() for k in ("tabA", "tabB", "tabc"))
+        return new
     Bn, L = case["B"], prob["L"]
     A, Bm, c1 = bufs["_A"].detach().double().numpy(), bufs["_B"].detach().double().numpy(), bufs.get("_c1")
     new = dict(prob)
@@ -806,7 +828,56 @@ def user_classes():
             self.n += 1
             self.go = self.n < self.k
 
-    for c_ in (MyLTI, ShiftLTI, MyLQR, MyMPC, FixedSteps, DuckStepper):
+    class PropLTV(P.module.LTV):
+        """user LTV whose A, B, c1 are PROPERTIES computed from the clock; the constructor receives None for all of them"""
+        def __init__(self, At, Bt, ct, ns, nc):
+            super().__init__(None, None, None, None, None, None)
+            self.register_buffer("tabA", At)
+            self.register_buffer("tabB", Bt)
+            self.register_buffer("tabc", ct)
+            self.ns_, self.nc_ = ns, nc
+
+        @property
+        def A(self):
+            return self.tabA[..., self._t, :, :]
+
+        @property
+        def B(self):
+            return self.tabB[..., self._t, :, :]
+
+        @property
+        def C(self):
+            return torch.eye(self.ns_, dtype=self.tabA.dtype).expand(self.tabA.shape[0], -1, -1)
+
+        @property
+        def D(self):
+            return torch.zeros(self.tabA.shape[0], self.ns_, self.nc_, dtype=self.tabA.dtype)
+
+        @property
+        def c1(self):
+            return self.tabc[..., self._t, :]
+
+    class EchoSys(P.module.NLS):
+        """callbacks that RETURN THEIR ARGUMENT: x+ = x (the very tensor), y = x"""
+        def state_transition(self, state, input, t=None):
+            return state
+
+        def observation(self, state, input, t=None):
+            return state
+
+    class ViewSys(P.module.NLS):
+        """callbacks that return a VIEW of an argument: x+ = u[..., :ns], y = x[..., :1]"""
+        def __init__(self, ns):
+            super().__init__()
+            self.ns_ = ns
+
+        def state_transition(self, state, input, t=None):
+            return input[..., :self.ns_]
+
+        def observation(self, state, input, t=None):
+            return state[..., :1]
+
+    for c_ in (MyLTI, ShiftLTI, MyLQR, MyMPC, FixedSteps, DuckStepper, PropLTV, EchoSys, ViewSys):
         c_.__qualname__, c_.__module__ = c_.__name__, __name__
         globals()[c_.__name__] = c_
         _USER[c_.__name__] = c_
